@@ -536,7 +536,10 @@ Inductive op : Type :=
 | OCall (m : string) (pos : list value) (kw : list (string * value)) (propagate : bool)
       (* c.m(pos..., kw...); a rejection (an exception before anything is sent) travels outward when
          propagate is set; otherwise, and whenever a command has already been sent, the caller catches it *)
-| OWith (kw : list (string * value)) (blk : list op)           (* with c(kw...): blk *)
+| OWith (kw : list (string * value)) (blk : list op)
+      (* with c(kw...): blk -- also `with v: blk` for a Context object v = c(kw...) kept in a variable:
+         entering pushes the object, i.e. a frame equal to kw, however often and wherever it is already on
+         the stack (update_current_context is not applied to a kept object: it would alter every occurrence) *)
 | OApp (pos : list value) (kw : list (string * value)) (blk : list op)   (* with c.application(pos..., kw...): blk *)
 | OUpdate (kw : list (string * value))                         (* c.update_current_context(kw...) *)
 | ORaise                                                       (* raise *)
